@@ -140,15 +140,24 @@ type TypeExpr struct {
 	Elem *TypeExpr
 	Key  *TypeExpr
 	Len  string
+	Args []*TypeExpr // type arguments of a generic named type
 }
 
 func (t *TypeExpr) String() string {
 	switch t.Kind {
 	case "name":
+		n := t.Name
 		if t.Pkg != "" {
-			return t.Pkg + "." + t.Name
+			n = t.Pkg + "." + t.Name
 		}
-		return t.Name
+		if len(t.Args) > 0 {
+			var as []string
+			for _, a := range t.Args {
+				as = append(as, a.String())
+			}
+			n += "[" + strings.Join(as, ",") + "]"
+		}
+		return n
 	case "ptr":
 		return "*" + t.Elem.String()
 	case "slice":
@@ -575,12 +584,37 @@ func (sp *specParser) typeExpr() (*TypeExpr, error) {
 		}
 		return &TypeExpr{Kind: "map", Key: k, Elem: v}, nil
 	}
+	te := &TypeExpr{Kind: "name", Name: t.text}
 	if sp.isOp(".") && sp.toks[sp.p+1].kind == tIdent {
 		sp.next()
 		n := sp.next()
-		return &TypeExpr{Kind: "name", Pkg: t.text, Name: n.text}, nil
+		te = &TypeExpr{Kind: "name", Pkg: t.text, Name: n.text}
 	}
-	return &TypeExpr{Kind: "name", Name: t.text}, nil
+	// type arguments: Name[T1, T2] (only directly after a name, and only when a
+	// type follows the bracket)
+	if sp.isOp("[") && sp.p+1 < len(sp.toks) && (sp.toks[sp.p+1].kind == tIdent || sp.toks[sp.p+1].text == "*" || sp.toks[sp.p+1].text == "[") {
+		save := sp.p
+		sp.next()
+		var args []*TypeExpr
+		ok := true
+		for {
+			a, err := sp.typeExpr()
+			if err != nil {
+				ok = false
+				break
+			}
+			args = append(args, a)
+			if !sp.accept(",") {
+				break
+			}
+		}
+		if ok && sp.accept("]") {
+			te.Args = args
+		} else {
+			sp.p = save
+		}
+	}
+	return te, nil
 }
 
 // parseTypeExprString parses a standalone type expression.
